@@ -27,6 +27,7 @@ import (
 
 	"github.com/go-git/go-billy/v6/osfs"
 	git "github.com/go-git/go-git/v6"
+	"github.com/go-git/go-git/v6/config"
 	"github.com/go-git/go-git/v6/plumbing"
 	"github.com/go-git/go-git/v6/plumbing/cache"
 	"github.com/go-git/go-git/v6/storage/filesystem"
@@ -44,14 +45,15 @@ func main() {
 }
 
 type scenario struct {
-	Idx    int    `json:"idx"`
-	Op     string `json:"op"`
-	Depth  int    `json:"depth,omitempty"`
-	Branch string `json:"branch,omitempty"`
-	Tags   string `json:"tags"` // following | all | none
-	Prune  bool   `json:"prune,omitempty"`
-	N      int    `json:"commits"`
-	Class  string `json:"dag_class"`
+	Idx        int    `json:"idx"`
+	Op         string `json:"op"`
+	Depth      int    `json:"depth,omitempty"`
+	PriorDepth int    `json:"prior_depth,omitempty"`
+	Branch     string `json:"branch,omitempty"`
+	Tags       string `json:"tags"` // following | all | none
+	Prune      bool   `json:"prune,omitempty"`
+	N          int    `json:"commits"`
+	Class      string `json:"dag_class"`
 
 	s1, s2       string            // repository names under the served root
 	refs1, refs2 map[string]string // server refs (heads and tags) of each stage
@@ -82,7 +84,10 @@ type env struct {
 	base  time.Duration
 }
 
-var opsFetch = map[string]bool{"fetch": true, "fetch-prune": true, "fetch-alltags": true, "fetch-from-shallow": true, "fetch-deepen": true}
+var opsFetch = map[string]bool{"fetch": true, "fetch-prune": true, "fetch-alltags": true, "fetch-from-shallow": true, "fetch-deepen": true, "fetch-deepen-subset": true}
+
+// opsShallowPrior: the prior client state is a shallow clone of every branch.
+var opsShallowPrior = map[string]bool{"fetch-from-shallow": true, "fetch-deepen": true, "fetch-deepen-subset": true}
 
 func run(c *vf.Ctx) {
 	e := &env{c: c, g: longGit(c.Scratch), root: filepath.Join(c.Scratch, "served"), work: filepath.Join(c.Scratch, "work"), base: 150 * time.Second}
@@ -140,6 +145,10 @@ func run(c *vf.Ctx) {
 		}
 		for k := 0; k < nc; k++ {
 			cl := e.cells[(i*perScen+k)%len(e.cells)]
+			if sc.Op == "fetch-deepen-subset" && nc < len(e.cells) {
+				// the subset deepen exercises the v2 shallow-info of the go-git servers above all
+				cl = e.subsetCells()[k%len(e.subsetCells())]
+			}
 			t1 := time.Now()
 			res := e.exchange(sc, cl, k, e.base)
 			c.Count("info_ms_exchange_"+cl.Client, int(time.Since(t1).Milliseconds()))
@@ -190,7 +199,7 @@ func run(c *vf.Ctx) {
 func (e *env) build(i int) *scenario {
 	c := e.c
 	r := c.Rand("scenario", i)
-	ops := []string{"clone", "fetch", "clone-depth", "fetch-prune", "clone-single", "fetch-from-shallow", "clone-mirror", "fetch-deepen", "clone-notags", "fetch-alltags"}
+	ops := []string{"fetch-deepen-subset", "clone", "fetch", "clone-depth", "fetch-prune", "clone-single", "fetch-from-shallow", "clone-mirror", "fetch-deepen", "clone-notags", "fetch-alltags"}
 	sc := &scenario{Idx: i, Op: ops[i%len(ops)], Tags: "following"}
 	n := 6 + r.Intn(20)
 	sc.Class = "dag"
@@ -316,6 +325,32 @@ func (e *env) build(i int) *scenario {
 		sc.Depth, sc.Tags = 2+r.Intn(2), "none"
 	case "fetch-from-shallow":
 		sc.Tags = "none"
+	case "fetch-deepen-subset":
+		// multi-branch shallow prior (depth 1-2 of every branch), then only ONE branch is deepened:
+		// the other branches' shallow roots lie outside the deepened view and must stay shallow
+		sc.PriorDepth, sc.Depth, sc.Tags = 1+r.Intn(2), 3+r.Intn(2), "none"
+		var changed, common []string
+		in1 := map[string]bool{}
+		for _, v := range sc.refs1 {
+			in1[v] = true
+		}
+		for _, b := range names {
+			if _, ok := sc.refs1["refs/heads/"+b]; !ok {
+				continue
+			}
+			common = append(common, b)
+			if !in1[sc.refs2["refs/heads/"+b]] {
+				changed = append(changed, b)
+			}
+		}
+		if len(changed) > 0 {
+			sc.Branch = changed[r.Intn(len(changed))]
+		} else {
+			sc.Branch = common[r.Intn(len(common))]
+		}
+	}
+	if opsShallowPrior[sc.Op] && sc.PriorDepth == 0 {
+		sc.PriorDepth = 1
 	}
 	// reference: git client <-> git daemon
 	wd := filepath.Join(e.work, fmt.Sprintf("sc%d", i))
@@ -324,8 +359,8 @@ func (e *env) build(i int) *scenario {
 	if opsFetch[sc.Op] {
 		sc.prior = filepath.Join(wd, "prior")
 		args := []string{"clone", "-q", "-n"}
-		if sc.Op == "fetch-from-shallow" || sc.Op == "fetch-deepen" {
-			args = append(args, "--depth", "1", "--no-single-branch", "--no-tags")
+		if opsShallowPrior[sc.Op] {
+			args = append(args, "--depth", fmt.Sprint(sc.PriorDepth), "--no-single-branch", "--no-tags")
 		}
 		args = append(args, e.ref.URL(sc.s1), sc.prior)
 		if res := gc.Run(wd, args...); !res.OK() {
@@ -386,6 +421,23 @@ func (e *env) danglingHead(srv *lab.Server) {
 	os.RemoveAll(dir)
 	os.RemoveAll(gdir)
 	os.RemoveAll(ggdir)
+}
+
+// subsetCells: every go-git server under v2 with both clients, go-git against a
+// git server (v2) and one v0 cell.
+func (e *env) subsetCells() []cell {
+	var out []cell
+	for _, c := range e.cells {
+		if c.Version == 2 && (c.Server.Impl == "gogit" || c.Server.Kind == "git-daemon") {
+			out = append(out, c)
+		}
+	}
+	for _, c := range e.cells {
+		if c.Version == 0 && c.Server.Kind == "gg-http" && c.Client == "gogit" {
+			out = append(out, c)
+		}
+	}
+	return out
 }
 
 func longGit(scratch string) *gitx.Git {
@@ -468,8 +520,11 @@ func (e *env) gitOp(sc *scenario, cl cell, dir string, budget time.Duration) (re
 		case "none":
 			args = append(args, "--no-tags")
 		}
-		if sc.Op == "fetch-deepen" {
+		if sc.Op == "fetch-deepen" || sc.Op == "fetch-deepen-subset" {
 			args = append(args, fmt.Sprintf("--depth=%d", sc.Depth))
+		}
+		if sc.Op == "fetch-deepen-subset" {
+			args = append(args, "+refs/heads/"+sc.Branch+":refs/remotes/origin/"+sc.Branch)
 		}
 		r = gc.Run(dir, args...)
 	} else {
@@ -546,8 +601,11 @@ func (e *env) goGitOp(sc *scenario, cl cell, dir string, budget time.Duration) (
 					return
 				}
 				fo := &git.FetchOptions{RemoteName: "origin", Prune: sc.Prune, Tags: tagMode(sc.Tags)}
-				if sc.Op == "fetch-deepen" {
+				if sc.Op == "fetch-deepen" || sc.Op == "fetch-deepen-subset" {
 					fo.Depth = sc.Depth
+				}
+				if sc.Op == "fetch-deepen-subset" {
+					fo.RefSpecs = []config.RefSpec{config.RefSpec("+refs/heads/" + sc.Branch + ":refs/remotes/origin/" + sc.Branch)}
 				}
 				err = repo.FetchContext(ctx, fo)
 				if err != nil && !errors.Is(err, git.NoErrAlreadyUpToDate) {
@@ -632,6 +690,13 @@ func (e *env) check(sc *scenario, cl cell, res result, isReference bool) []viol 
 			wantRemote[n] = v
 		}
 	case sc.Op == "clone-single":
+		wantRemote[prefix+sc.Branch] = server["refs/heads/"+sc.Branch]
+	case sc.Op == "fetch-deepen-subset":
+		for n, v := range sc.priorRefs {
+			if strings.HasPrefix(n, prefix) && n != prefix+"HEAD" {
+				wantRemote[n] = v
+			}
+		}
 		wantRemote[prefix+sc.Branch] = server["refs/heads/"+sc.Branch]
 	default:
 		for n, v := range server {
@@ -726,6 +791,9 @@ func (e *env) check(sc *scenario, cl cell, res result, isReference bool) []viol 
 			have[v] = true
 		}
 		for n, v := range server {
+			if sc.Op == "fetch-deepen-subset" && n != "refs/heads/"+sc.Branch {
+				continue // only the one branch is asked for
+			}
 			if strings.HasPrefix(n, "refs/heads/") && have[v] {
 				comparable = false
 			}
@@ -734,7 +802,7 @@ func (e *env) check(sc *scenario, cl cell, res result, isReference bool) []viol 
 			e.c.Count("shallow_not_comparable_unchanged_tip", 1)
 		}
 	}
-	if !isReference && comparable && (sc.Op == "clone-depth" || sc.Op == "fetch-deepen" || sc.Op == "fetch-from-shallow") {
+	if !isReference && comparable && (sc.Op == "clone-depth" || sc.Op == "fetch-deepen" || sc.Op == "fetch-from-shallow" || sc.Op == "fetch-deepen-subset") {
 		want := lab.Shallow(lab.GitDir(sc.refDir))
 		e.c.Count("shallow_compared", 1)
 		if want != res.shallow {
